@@ -77,6 +77,7 @@ var c06Contract = []chainReq{
 func checkC06(ctx *Ctx, r *Report) {
 	defer c06SecondHunt(ctx, r)
 	defer c06FourthHunt(ctx, r)
+	defer c06FifthHunt(ctx, r)
 	defer c06PHPStringLiterals(ctx, r)
 	// the last pass of the Java chain removes objects: what the generators are handed must not refer to them
 	defer func() { c05RemovedObjectsRewrittenEverywhere(ctx, r, newEffectsEngine(ctx)) }()
@@ -314,6 +315,7 @@ func c06HandRolled(ctx *Ctx, r *Report, p passInfo, info *types.Info) {
 	// dispatcher: a method with an ast.Type parameter containing >= 3 `def.Is<Kind>()` tests
 	var dispatcher *ast.FuncDecl
 	var dispObj *types.Func
+	most := 0
 	for _, fd := range methodsOf(ctx, p.named) {
 		tests := 0
 		ast.Inspect(fd.Body, func(n ast.Node) bool {
@@ -326,7 +328,9 @@ func c06HandRolled(ctx *Ctx, r *Report, p passInfo, info *types.Info) {
 			}
 			return true
 		})
-		if tests >= 3 && (dispatcher == nil) {
+		// the method with the most tests: an entry point that tells a few kinds apart before handing over is not it
+		if tests >= 3 && tests > most {
+			most = tests
 			dispatcher = fd
 			dispObj, _ = info.Defs[fd.Name].(*types.Func)
 		}
@@ -1837,4 +1841,110 @@ func c06GoNamedOptionalBuilder(ctx *Ctx, r *Report) int {
 			"the Go builder of `MaybeAddress: Address | null` — `type MaybeAddress = *Address` once the chain made it a nullable reference — is written as for a struct: `internal *MaybeAddress`, `&MaybeAddress{}`, `builder.internal.City` — invalid composite literal type, the module does not compile")
 	}
 	return n
+}
+
+// c06FifthHunt — fifth hunt of C06:
+//   - a composition written in place (`item: allOf[…]`, the items of a list) reaches the jennies of the languages that
+//     only know compositions as the type of an object: AnonymousStructsToNamed declares it as an object, like an anonymous
+//     struct (the handler of its kind dispatcher for intersections ends in ast.NewObject);
+//   - a union written in place as a branch of a union is unfolded by FlattenDisjunctions like a reference to a union;
+//   - (finding) the PHP chain inlines the references to named scalars but skips the constants: the references to a
+//     constant stay, and the PHP jenny writes every reference as a class name.
+func c06FifthHunt(ctx *Ctx, r *Report) {
+	n := 0
+	// (a)
+	if fn := ctx.LookupMethod("internal/ast/compiler", "AnonymousStructsToNamed", "processType"); fn == nil {
+		r.Undecided("anchor lost: compiler.AnonymousStructsToNamed.processType")
+	} else if fd, p := ctx.DeclOf(fn); fd != nil {
+		info := p.TypesInfo
+		declares := false
+		var reaches func(f *types.Func, depth int) bool
+		reaches = func(f *types.Func, depth int) bool {
+			gd, _ := ctx.DeclOf(f)
+			if gd == nil || gd.Body == nil || depth > 2 {
+				return false
+			}
+			found := false
+			ast.Inspect(gd.Body, func(q ast.Node) bool {
+				c, ok := q.(*ast.CallExpr)
+				if !ok || found {
+					return !found
+				}
+				g := callee(info, c)
+				if g == nil {
+					return true
+				}
+				if g.Name() == "NewObject" {
+					found = true
+					return false
+				}
+				if g != fn && g.Pkg() == p.Types && g.Type().(*types.Signature).Recv() != nil && reaches(g, depth+1) {
+					found = true
+				}
+				return true
+			})
+			return found
+		}
+		ast.Inspect(fd.Body, func(m ast.Node) bool {
+			is, ok := m.(*ast.IfStmt)
+			if !ok || !strings.Contains(exprString(is.Cond), "IsIntersection()") {
+				return true
+			}
+			ast.Inspect(is.Body, func(q ast.Node) bool {
+				if c, ok := q.(*ast.CallExpr); ok {
+					if g := callee(info, c); g != nil && g.Pkg() == p.Types && reaches(g, 0) {
+						declares = true
+					}
+				}
+				return true
+			})
+			return true
+		})
+		n++
+		r.Check(declares, "chains/in-place-intersections-named", "compiler.AnonymousStructsToNamed meets a composition written in place", fd.Pos(), "it is declared as an object and replaced by a reference",
+			"a composition used as the type of a field or of the items of a list keeps its place (only the structs inside it are named): `Holder.item: allOf[$ref Base, {extra?: integer}]` reaches the Java jenny, which writes `public unknown item;` and `List<unknown> items;` — cannot find symbol: class unknown, and cog reports success")
+	}
+	// (b)
+	if fn := ctx.LookupMethod("internal/ast/compiler", "FlattenDisjunctions", "flattenDisjunction"); fn == nil {
+		r.Undecided("anchor lost: compiler.FlattenDisjunctions.flattenDisjunction")
+	} else if fd, _ := ctx.DeclOf(fn); fd != nil {
+		unfolds := false
+		ast.Inspect(fd.Body, func(m ast.Node) bool {
+			is, ok := m.(*ast.IfStmt)
+			if !ok || !strings.HasSuffix(exprString(is.Cond), ".IsDisjunction()") || strings.HasPrefix(exprString(is.Cond), "!") {
+				return true
+			}
+			ast.Inspect(is.Body, func(q ast.Node) bool {
+				if c, ok := q.(*ast.CallExpr); ok {
+					if id, ok := ast.Unparen(c.Fun).(*ast.Ident); ok && id.Name == "flatten" {
+						unfolds = true
+					}
+				}
+				return true
+			})
+			return true
+		})
+		n++
+		r.Check(unfolds, "traverse/in-place-unions-unfolded", "compiler.FlattenDisjunctions meets a union written as a branch of a union", fd.Pos(), "its branches are unfolded like those of a referred union",
+			"only references to unions are unfolded: `(string | integer) | boolean` — `type: [string, integer]` inside an anyOf — keeps the inner union as one branch; the Go chain then builds a plain struct without union hint (no marshaller: true, \"abc\", 3 can not be decoded) and `(string | integer) | $ref Foo` fails with a bare `discriminator not set`")
+	}
+	// (c)
+	if fn := ctx.LookupMethod("internal/ast/compiler", "InlineObjectsWithTypes", "Process"); fn == nil {
+		r.Undecided("anchor lost: compiler.InlineObjectsWithTypes.Process")
+	} else if fd, _ := ctx.DeclOf(fn); fd != nil {
+		skipsConstants := false
+		ast.Inspect(fd.Body, func(m ast.Node) bool {
+			is, ok := m.(*ast.IfStmt)
+			if !ok || !strings.Contains(exprString(is.Cond), "IsConcreteScalar()") || !endsInExit(is.Body) {
+				return true
+			}
+			skipsConstants = true
+			return true
+		})
+		n++
+		r.Check(!skipsConstants, "chains/php-constant-references-inlined", "compiler.InlineObjectsWithTypes collects the objects whose references it replaces", fd.Pos(), "constants included (the objects are kept, the references replaced)",
+			"constants are left out of the objects to inline — to keep the constant *objects* — which also keeps every *reference* to them: after the PHP chain `version: $ref Version` (Version: const \"v1\") still designates a scalar and the PHP jenny writes it as a class, `?\\Demo\\Demo\\Version $version`, `$version ?: \\Demo\\Demo\\Version` — neither a class nor a constant (the constant is Constants::VERSION)")
+	}
+	r.Count("hunted clauses of the normal forms (5th hunt)", n)
+	r.Floor("hunted clauses of the normal forms (5th hunt)", 3)
 }
